@@ -854,6 +854,19 @@ def decide_call(world, spec, oi, op, q, opts, SolveFailure):
             if node is not None and node["k"] == "e":
                 if after[path] not in [mv for _, mv in world.prog["enums"][node["enum"]]]:
                     bad_type.append((nm, after[path]))
+        # fields no constraint mentions are drawn directly from their inferred domain: their values are range-checked as well
+        seen_bt = set(n for n, _ in bad_type)
+        for path, node in P.walk_leaves(world.shadow):
+            if path not in after or not isinstance(after[path], int) or path[-1] == "size" or R.vname(path) in seen_bt:
+                continue
+            if node.get("k") == "s":
+                lo = -(1 << (node["w"] - 1)) if node["signed"] else 0
+                hi = (1 << (node["w"] - 1)) - 1 if node["signed"] else (1 << node["w"]) - 1
+                if not (lo <= after[path] <= hi):
+                    bad_type.append((R.vname(path), after[path]))
+            elif node.get("k") == "e":
+                if after[path] not in [mv for _, mv in world.prog["enums"][node["enum"]]]:
+                    bad_type.append((R.vname(path), after[path]))
         if bad_type:
             finding("out_of_type", "returned value outside the declared type: %s" % bad_type)
         if not opts.get("skip_q5"):
